@@ -1,3 +1,4 @@
+import WebpVerif.Model.LosslessTransforms
 import WebpVerif.Spec.Lossless
 import WebpVerif.Spec.LosslessP
 import WebpVerif.Model.LosslessStream
@@ -46,6 +47,16 @@ def handle (args : List String) : Option String :=
         | "subgreen" => VP8L.inverseSubGreen (toArgb im)
         | _ => VP8L.inverseIndexing (toArgb d) w h (toArgb im)
       some (toHex (VP8L.toRgba out))
+  | ["ltr", kind, bits, w, h, data, img] => do
+      -- the models of the transform drivers themselves (Model/LosslessTransforms.lean), on bytes
+      let bits ← bits.toNat?; let w ← w.toNat?; let h ← h.toNat?
+      let d ← if data == "-" then some #[] else parseHex data
+      let im ← parseHex img
+      match kind with
+      | "predictor" => some (toHex (LTr.applyPredictor w h bits d im))
+      | "color" => some (toHex (LTr.applyColor w bits d im))
+      | "subgreen" => some (toHex (LTr.applySubGreen im))
+      | _ => none
   | ["cidx", w, h, table, img] => do
       -- the in-place model of apply_color_indexing_transform on the whole w*h buffer
       let w ← w.toNat?; let h ← h.toNat?
